@@ -194,7 +194,16 @@ def run(w, rep, tier):
             elif v == DIFFERENT:
                 rep.fail("C13.cases", inst, "headroom logic does not reproduce the demand in this sign case: %s" % d, where=W, fact={"C1": names[s1], "C2": names[s2], "difference": d})
             else:
-                rep.incomplete("C13.cases", inst, "cannot decide: %s" % d, where=W)
+                # the reference is written with the program's own atoms (max/min of the demanded forces); if the
+                # candidate uses no building block the reference lacks, no alternative spelling is involved and the
+                # two differ as functions (the extra max/min atoms occur with non-zero coefficients)
+                from ..decide import generators, normal
+                gc = set().union(*[generators(normal(p)) for p in Xc.flat()])
+                gr = set().union(*[generators(normal(p)) for p in want.flat()])
+                if gc <= gr:
+                    rep.fail("C13.cases", inst, "headroom logic does not reproduce the demand in this sign case: %s" % d, where=W, fact={"C1": names[s1], "C2": names[s2], "difference": d})
+                else:
+                    rep.incomplete("C13.cases", inst, "cannot decide: %s" % d, where=W)
     rep.floor("C13.clamp", 8)
     rep.floor("C13.mixer", 8)
     rep.floor("C13.cases", 6)
